@@ -445,7 +445,10 @@ def good_write(rng, a, n, sim, holder):
 def fail_write_of(rng, inner):
     """one file write of the call raises OSError (quota, a hiccup of the shared filesystem): the (after+1)-th of the at most four
     of one lock section; the exception reaches the caller, which goes on using the handle"""
-    return {"k": "failWrite", "op": inner, "after": rng.choice([0, 0, 1, 1, 2, 3] if inner["k"] in ("update", "prepareResubmit") else [0, 0, 1, 1, 2])}
+    op = {"k": "failWrite", "op": inner, "after": rng.choice([0, 0, 1, 1, 2, 3] if inner["k"] in ("update", "prepareResubmit") else [0, 0, 1, 1, 2])}
+    if rng.random() < .25:
+        op["torn"] = True       # the failing write of a version file had truncated it already: the file is left EMPTY
+    return op
 
 
 def failed_case_ops(rng, jobs, host, brk):
@@ -757,6 +760,8 @@ def witness_cases():
     fails = [upd(0, [0, 2], [], [], [], [1], 2), upd(0, [], [], [], [5], [], 1), upd(0, [0, 0], [], [], [], [1], 2)]
     fails += [{"k": "failWrite", "op": upd(0, [0], [], [], [], [1], 2), "after": k} for k in (0, 1, 2, 3)]
     fails += [{"k": "failWrite", "op": {"k": "markCanceled", "h": 0}, "after": k} for k in (0, 1)]
+    fails += [{"k": "failWrite", "op": upd(0, [0], [], [], [], [1], 2), "after": k, "torn": True} for k in (0, 2)]
+    fails += [{"k": "failWrite", "op": {"k": "demote", "h": 0}, "after": k} for k in (0, 1)]
     for bad in fails:
         out.append({"op": "cluster.run", "kind": "witness.failed_then_stale", "host": 0, "breakStale": True, "jobs": two, "ops": [
             {"k": "load", "h": 3, "host": 2, "promote": False, "jobs": True},
